@@ -33,6 +33,7 @@ func checkC09(r *Report, p *Program) {
 	r09_5(r, p)
 	claimMovePairing(r, p, "R09.6")
 	revisionCopies(r, p, "R09.7")
+	keyCompleteness(r, p, "R09.8", "claimMapKey")
 }
 
 func r09_1(r *Report, p *Program, e *syncEntry) {
@@ -332,7 +333,9 @@ func r09_5(r *Report, p *Program) {
 		return
 	}
 	exists := func(a string) bool { return strings.HasPrefix(a, "makemap<") && strings.HasSuffix(a, "#1") }
-	desiredNil := func(a string) bool { return strings.Contains(a, "FindGroupKindName)(p1[0].desiredChildMap") && strings.HasSuffix(a, " == nil)") }
+	desiredNil := func(a string) bool {
+		return strings.Contains(a, "FindGroupKindName)(p1[0].desiredChildMap") && strings.HasSuffix(a, " == nil)")
+	}
 	ok, why := true, ""
 	nClaim := 0
 	for _, pa := range paths {
